@@ -23,6 +23,8 @@ type cfg08 struct {
 	acl bool
 	// amode: subscription mode of the stalled subscriber A (default STREAM)
 	amode pb.SubscriptionList_Mode
+	// late: a third subscriber starts (initial walk) while the writer is writing
+	late bool
 }
 
 func configs08(tier string) []xplore.Config {
@@ -46,6 +48,11 @@ func configs08(tier string) []xplore.Config {
 	}
 	out = append(out, xplore.Config{Name: "A stall=permanent updates_only=true | B normal | W=1500 distinct leaves", Bound: 0, Data: cfg08{stall: "permanent", updatesOnly: true, script: many}})
 	out = append(out, xplore.Config{Name: "A stall=never on * with an ACL denying t2 | B normal | W(t2)=upd a/b;upd a/b then idle", Bound: bound + 1, Data: cfg08{stall: "never", script: []wop{{"upd", "a/b"}, {"upd", "a/b"}}, acl: true}})
+	// accepting an update never waits on a subscriber - not on one that is just
+	// starting either (its initial walk reads the leaves being updated)
+	for _, st := range []string{"never", "permanent"} {
+		out = append(out, xplore.Config{Name: fmt.Sprintf("A stall=%s | B normal | C subscribes while W=upd a/b;upd a/b;upd a/b", st), Bound: bound + 1, Data: cfg08{stall: st, script: scripts[1], late: true}})
+	}
 	// the send time-out ends a stalled subscription in every mode
 	for _, md := range []pb.SubscriptionList_Mode{pb.SubscriptionList_ONCE, pb.SubscriptionList_POLL} {
 		out = append(out, xplore.Config{Name: fmt.Sprintf("A mode=%v stall=permanent | B normal | W=upd a/b;upd a/b;upd a/b", md), Bound: bound, Data: cfg08{stall: "permanent", script: scripts[1], amode: md}})
@@ -162,6 +169,15 @@ func run08(cfg xplore.Config, ch vrt.Chooser, trace bool) (xplore.Outcome, *vrt.
 		})
 		if d.stall == "transient" {
 			vrt.GoNamed("releaser", func() { a.gate.Open() })
+		}
+		if d.late {
+			c := newStream(subSpec{target: "t1", paths: []string{"a"}, mode: pb.SubscriptionList_STREAM})
+			w.streams = append(w.streams, c)
+			vrt.GoNamed("subC", func() {
+				c.status = w.srv.Subscribe(c)
+				c.returned = true
+				c.cancel()
+			})
 		}
 		vrt.Idle()
 		out.Nontrivial = true
